@@ -33,6 +33,7 @@ var c02Patterns = []string{"_a_b", "_a_b_c", "_a_c", "a_b", "abc", "_zz_unused",
 type c02Case struct {
 	Loggers []string `json:"logger_tags"` // tags attribute of logger l0, l1, ...
 	Root    string   `json:"root"`        // "none" | "plain" | "tags"
+	ViaProp bool `json:"tags_via_property,omitempty"` // every tag list is given as ${property} instead of literally
 }
 
 // refRoute returns the serving logger name ("l0".., "root" or "console") per tag, or an error.
@@ -104,15 +105,17 @@ func init() {
 			}
 			lists = append(lists, "", " , ", "_a_b,_a_b")
 			roots := []string{"none", "plain", "tags"}
-			for _, a := range lists {
-				yield(c02Case{Loggers: []string{a}, Root: "plain"})
-				yield(c02Case{Loggers: []string{a}, Root: "none"})
-				for _, b := range lists {
-					for _, r := range roots {
-						if r == "tags" && (len(a)+len(b))%7 != 0 {
-							continue
+			for _, via := range []bool{false, true} {
+				for _, a := range lists {
+					yield(c02Case{Loggers: []string{a}, Root: "plain", ViaProp: via})
+					yield(c02Case{Loggers: []string{a}, Root: "none", ViaProp: via})
+					for _, b := range lists {
+						for _, r := range roots {
+							if r == "tags" && (len(a)+len(b))%7 != 0 {
+								continue
+							}
+							yield(c02Case{Loggers: []string{a, b}, Root: r, ViaProp: via})
 						}
-						yield(c02Case{Loggers: []string{a, b}, Root: r})
 					}
 				}
 			}
@@ -161,6 +164,11 @@ func init() {
 				conf["logger."+n+".appenderRef.ref"] = "r" + n
 				if tags != "" {
 					conf["logger."+n+".tags"] = tags
+					if c.ViaProp {
+						// "a value of the form ${key} is replaced by the top-level property key": the same routing
+						conf["logger."+n+".tags"] = fmt.Sprintf("${c02-tags-%d}", i)
+						conf[fmt.Sprintf("c02Tags%d", i)] = tags
+					}
 				}
 			}
 			switch c.Root {
@@ -172,6 +180,9 @@ func init() {
 				}
 			}
 			key := fmt.Sprintf("loggers=%q root=%s", c.Loggers, c.Root)
+			if c.ViaProp {
+				key += " (tag lists through ${properties})"
+			}
 			// excluded: the empty-prefix wildcard "_*" and inner-'*' patterns that end in "_*"
 			want, ok := refRoute(c)
 			err, pn := safeRefresh(conf)
